@@ -32,7 +32,7 @@ func init() {
 			"NAL units are at least 3 bytes, no filler NAL (type 12), a track's first RTCP sender report arriving mid-stream re-bases its clock: presentation times are judged separately before and after it, and it is only placed between access units",
 			"a fragmented unit whose fragments were duplicated or reordered may be dropped (the statement only forbids emitting truncated or spliced units)",
 		},
-		RequiredProbes: []string{"c06.fu-broken-by-loss", "c06.fu-complete", "c06.seq-wrap-inside-fu", "c06.sender-report-first", "c06.rtp-timestamp-wrap", "c06.sender-report-mid-stream"},
+		RequiredProbes: []string{"c06.fu-broken-by-loss", "c06.fu-complete", "c06.seq-wrap-inside-fu", "c06.sender-report-first", "c06.rtp-timestamp-wrap", "c06.sender-report-mid-stream", "c06.unit-in-over-1000-fragments"},
 	})
 }
 
@@ -75,7 +75,17 @@ func buildC06(tier string) sim.Scenario {
 			w.Probe("c06.rtp-timestamp-wrap")
 		}
 		id := 1
+		// one unit sent in well over a thousand fragments (a large key frame at a small fragment size): "all sizes, any fragment size"
+		manyFrags := !faulty && tp.OneIn(30)
+		if manyFrags {
+			mtu = 40
+			w.Probe("c06.unit-in-over-1000-fragments")
+		}
 		size := func() int {
+			if manyFrags {
+				manyFrags = false
+				return 40000 + tp.Choose(30000)
+			}
 			switch tp.Choose(5) {
 			case 0:
 				return 3 + tp.Choose(10)
